@@ -401,6 +401,7 @@ class Run:
         self.switches = 0
         self.state: Any = None
         self.deadlocked: list[str] = []
+        self.lines_only = False
 
     # ---- logging helpers for harnesses
     def log(self, *ev) -> None:
@@ -470,6 +471,10 @@ class Run:
     # ---- scheduling
     def point(self, me: MThread, label: str, frame=None, voluntary: bool = False) -> None:
         if me.atomic or self.aborting:
+            return
+        if self.lines_only and label in ("acquire", "event.set", "event.wait"):
+            # coarse mode (harness.lines_only): switch only at line boundaries of the focus files, at explicit harness points
+            # and where a thread blocks, starts or ends - a subset of the schedules of the normal mode, affordable at PB 2
             return
         self._schedule(me, True, label, voluntary)
 
@@ -596,6 +601,7 @@ def execute(harness, prefix: list[int], max_points: int = 4000, horizon: float =
     """One execution of `harness` under choice prefix `prefix` (defaults afterwards)."""
     global _current_run
     r = Run(prefix, set(harness.focus), max_points, horizon)
+    r.lines_only = bool(getattr(harness, "lines_only", False))
     if sync_log or getattr(harness, "sync_log", False):
         r.sync_log = []
     _current_run = r
